@@ -34,12 +34,14 @@ type Scen struct {
 	Seed     uint64           `json:"seed"`
 	Regime   int              `json:"regime"`
 	Opts     chaingen.GenOpts `json:"opts"`
-	Tips     []int            `json:"tips"`             // initial tip (tree node index) per node
-	Edges    [][2]int         `json:"edges"`            // connection order; [a,b]: a dials b
-	Batch    uint64           `json:"batch"`            // WithMaxSendBlocks on every node (0 = default)
-	MaxIn    int              `json:"max_in,omitempty"` // WithMaxInboundPeers (0 = default)
-	Boot     []bool           `json:"boot,omitempty"`   // node bootstrapped from a checkpoint (its tip) instead of genesis
-	Announce bool             `json:"announce"`         // tips are re-announced while waiting (as the property says)
+	Tips     []int            `json:"tips"`               // initial tip (tree node index) per node
+	Edges    [][2]int         `json:"edges"`              // connection order; [a,b]: a dials b
+	Batch    uint64           `json:"batch"`              // WithMaxSendBlocks on every node (0 = default)
+	MaxIn    int              `json:"max_in,omitempty"`   // WithMaxInboundPeers (0 = default)
+	Boot     []bool           `json:"boot,omitempty"`     // node bootstrapped from a checkpoint (its tip) instead of genesis
+	Announce bool             `json:"announce"`           // tips are re-announced while waiting (as the property says)
+	Staged   bool             `json:"staged,omitempty"`   // each connection is made only after the previous one has finished syncing (both ends marked synced)
+	HdrOnly  bool             `json:"hdr_only,omitempty"` // tips are announced by header only (what syncLoop itself relays; v1 tips have no outline anyway)
 	Slot     int              `json:"-"`
 }
 
@@ -178,6 +180,12 @@ func runNet(s Scen) (res result) {
 		if err := nodes[e[0]].Connect(nodes[e[1]]); err != nil {
 			res.notes = append(res.notes, fmt.Sprintf("connect %d->%d: %v", e[0], e[1], err))
 		}
+		if s.Staged {
+			a, b := nodes[e[0]], nodes[e[1]]
+			if !netsim.WaitUntil(10*time.Second, func() bool { return a.PeerSynced(b.IP) && b.PeerSynced(a.IP) }) {
+				res.notes = append(res.notes, fmt.Sprintf("stage %d-%d did not settle", e[0], e[1]))
+			}
+		}
 	}
 	h := heaviest(t, s.Tips)
 	res.expected = h.Idx
@@ -210,7 +218,11 @@ func runNet(s Scen) (res result) {
 	for {
 		if s.Announce && time.Since(lastAnn) > 250*time.Millisecond {
 			for _, nd := range nodes {
-				nd.AnnounceTip()
+				if s.HdrOnly {
+					nd.AnnounceHeader()
+				} else {
+					nd.AnnounceTip()
+				}
 			}
 			lastAnn = time.Now()
 		}
@@ -1035,6 +1047,32 @@ func corpus() []Scen {
 		s.Edges = [][2]int{{0, 1}, {0, 2}, {3, 0}, {4, 0}}
 		if rep%2 == 1 {
 			s.Edges = [][2]int{{2, 0}, {1, 0}, {0, 4}, {0, 3}}
+		}
+		out = append(out, s)
+	}
+	// line a-b-c, connection order a-b first: a holds fork X, b the equal-work fork Y (neither replaces the other, each
+	// stores the other's fork as a sidechain and marks the peer synced), c holds Y plus one block. Then b-c: b adopts
+	// Y+1 and relays its header to a, whose only peer is b: a knows the parent (a stored sidechain block that is not
+	// its tip) and must resync. Tips are announced by header only. Works separated by the extra block: all end on Y+1.
+	for rep, regime := range []int{0, 2, 1} {
+		const fl = 6
+		shape := []int{}
+		for k := 0; k < fl; k++ { // X: nodes 1..fl
+			shape = append(shape, k)
+		}
+		for k := 0; k < fl+1; k++ { // Y: nodes fl+1..2fl, then Y+1: node 2fl+1
+			if k == 0 {
+				shape = append(shape, 0)
+			} else {
+				shape = append(shape, fl+k)
+			}
+		}
+		s := Scen{Kind: "net", Stream: "exact", Seed: uint64(8300 + rep), Regime: regime, Announce: true, Staged: true, HdrOnly: true,
+			Opts: chaingen.GenOpts{Shape: shape}, Batch: 100}
+		s.Tips = []int{fl, 2 * fl, 2*fl + 1}
+		s.Edges = [][2]int{{0, 1}, {1, 2}}
+		if rep == 1 {
+			s.Edges = [][2]int{{1, 0}, {2, 1}}
 		}
 		out = append(out, s)
 	}
